@@ -1,6 +1,6 @@
 #!/bin/sh
 # usage: runall.sh [quick|thorough]  -- run every registered check on the unchanged tree, then validate manifest + evidence
-cd /verif
+cd "$(dirname "$0")/.." || exit 2; V=$(pwd)
 tier=${1:-quick}
 for p in $(python3 -c "import json;print(' '.join(c['property_id'] for c in json.load(open('MANIFEST.json'))['checks']))"); do
   s=$(date +%s); out=$(./check $p $tier 2>&1); rc=$?
